@@ -354,9 +354,12 @@ def opt_cases(seed: int, n: int) -> list[dict]:
             rules.append(f"start = {rng.choice(['', '@', '$'])}{{ ({body}){tail} }}")
             alpha = "abck"[: rng.randint(2, 4)]
         elif k == 1:    # skip-until shapes, inside and outside atomic rules, with and without trivia
-            stop = rng.choice(['"b"', '("b" | "ab")', 'stop', '("b" | stop)', '""'])
+            stop = rng.choice(['"b"', '("b" | "ab")', 'stop', '("b" | stop)', '""', '("a" | "b")', '("ab" | "ca")',
+                               '("c" | "bcd")', '("b" | "a")'])
             mod = rng.choice(["", "@", "$", "!", "_"])
-            rules.append(f'start = {mod}{{ "a"? ~ (!{stop} ~ ANY)* ~ "b"? }}')
+            head = rng.choice(['"a"? ~ ', "", ""])
+            rules.append(f'start = {mod}{{ {head}(!{stop} ~ ANY)* ~ "b"? }}')
+            alpha = "abcd"[: rng.randint(2, 4)]
             rules.append('stop = { "ba" }')
         elif k == 2:    # silent rules referenced under every modifier; tags
             rules.append(f'start = {rng.choice(["", "@", "$", "!"])}{{ {rng.choice(["", "#tg = "])}sil ~ "b"? ~ nr* }}')
